@@ -21,10 +21,10 @@ CONFIG = {"quick": {"shards": 8, "timeout_s": 600, "cases": 240},
 REQUIRED_COUNTERS = ["pairs_compared_relabel", "pairs_compared_rows", "pairs_compared_creation",
                      "pairs_with_multi_section_pipes", "pairs_with_large_labels", "pairs_heating", "pairs_gas",
                      "pairs_with_out_of_service", "pairs_with_pi_valves"]
-FEATS = [("valves", "pi_valves", "oos"), ("pump", "compressor", "valves", "mass_storage"),
+FEATS = [("valves", "pi_valves", "oos"), ("pump", "compressor", "multi_pump", "valves", "mass_storage"),
          ("flow_control", "press_control", "multi_grid"), ("heat_exchanger", "islands", "oos", "pi_valves", "closed"),
          ("valves", "pi_valves", "pump", "compressor", "flow_control", "press_control", "heat_exchanger",
-          "mass_storage", "multi_grid", "islands", "oos", "closed", "std_pipes")]
+          "mass_storage", "multi_grid", "multi_pump", "islands", "oos", "closed", "std_pipes")]
 SCHEMES = ["shuffled", "gaps", "large", "mixed"]
 
 
@@ -45,6 +45,10 @@ def make(case):
         opts = dict(netgen.TIGHT, mode=str(rng.choice(["sequential", "bidirectional"])), use_numba=case["numba"])
     else:
         base = netgen.gen_hydraulic(rng, fluid=case["fluid"], features=case["feats"], max_sections=4)
+        if {"pump", "compressor"} & set(case["feats"]):
+            # several machines of different types plus out-of-service stand-by twins: row / creation order decides which rows
+            # of the table are inactive
+            netgen.add_standby(base, rng)
         opts = dict(netgen.TIGHT, use_numba=case["numba"],
                     friction_model=str(rng.choice(["nikuradse", "colebrook", "swamee-jain"])))
         if opts["friction_model"] == "colebrook":
